@@ -286,6 +286,7 @@ def run(chk: Check, only_numeric: bool = False) -> None:
         run_dict_helpers_dispatch_to_same_method(chk, ix, funcs)
         run_loop_carried_registers_created_once(chk, ix)
         run_suspension_values_are_op_values(chk, ix)
+        run_loop_operands_are_snapshots(chk, ix)
         pass_order(chk, ix)
 
 
@@ -1060,3 +1061,32 @@ def run_suspension_values_are_op_values(chk: Check, ix) -> None:
                 r21.violation(key, f.loc(r), f"`{norm(r.value)[:70]}` hands the receiving register itself to the enclosing expression: a later suspension in the same expression overwrites it (`[(yield 1), (yield 2)]` gives ['b', 'b']) or loses it (`[await a, await b]` with object-typed awaitables gives [<NULL>, 'b'])")
     if n < 3:
         raise AnalysisError(f"only {n} returns found in the yield/await expression transformers")
+
+
+def run_loop_operands_are_snapshots(chk: Check, ix) -> None:
+    """R05.22: what a for loop iterates over is evaluated once."""
+    r22 = chk.rule("R05.22", "Python evaluates the iterable of a `for` (and the bounds of range()) once, before the first iteration. irbuild/for_helpers.py keeps them for the whole loop in `self.<x>_target = builder.maybe_spill(<value handed in by the caller>)`; the value comes from builder.accept(expr), which for a plain local variable is that variable's Register. IRBuilder.maybe_spill therefore must not hand a Register back unchanged in a non-generator function (a copy into a fresh Register is needed, as maybe_spill_assignable makes for non-registers): otherwise an assignment to the variable in the loop body changes what is iterated", floor=1)
+    b = ix.cls("mypyc.irbuild.builder.IRBuilder")
+    ms = b.methods.get("maybe_spill")
+    fh = ix.module("mypyc.irbuild.for_helpers")
+    if ms is None:
+        raise AnalysisError("IRBuilder.maybe_spill not found")
+    sites = []
+    for c in fh.classes.values():
+        init = c.methods.get("init")
+        if init is None:
+            continue
+        params = {a.arg for a in init.node.args.args} - {"self"}
+        for a in ast.walk(init.node):
+            if isinstance(a, ast.Assign) and isinstance(a.targets[0], ast.Attribute) and isinstance(a.value, ast.Call) and call_name(a.value) == "maybe_spill" and a.value.args and isinstance(a.value.args[0], ast.Name) and a.value.args[0].id in params:
+                sites.append(f"{c.name}.init: self.{a.targets[0].attr} = maybe_spill({a.value.args[0].id})")
+    if len(sites) < 4:
+        raise AnalysisError(f"for_helpers: only {len(sites)} `self.x = builder.maybe_spill(<parameter>)` stores found in init methods")
+    key = "IRBuilder.maybe_spill: a Register is not handed back unchanged outside generators"
+    plain = [r for r in ast.walk(ms.node) if isinstance(r, ast.Return) and isinstance(r.value, ast.Name) and r.value.id == "value"]
+    tests_register = any(isinstance(c, ast.Call) and call_name(c) == "isinstance" and len(c.args) == 2 and norm(c.args[0]) == "value" and "Register" in norm(c.args[1]) for c in ast.walk(ms.node))
+    chk.extra["loop_operands_kept_by_maybe_spill"] = sites
+    if plain and not tests_register:
+        r22.violation(key, ms.loc(plain[0]), f"`return value` without an isinstance(value, Register) test: {len(sites)} loop generators keep their iterable / bound this way ({'; '.join(sites[:3])}; ...), so `for i in range(n): n -= 1` stops early and `for x in t: t = (7,)` indexes the new, shorter tuple with the old length")
+    else:
+        r22.ok(key, ms.loc())
